@@ -394,7 +394,7 @@ def check_c17(prop, tier, seed):
     for name, eng, p_ in (("tee", eng_tee, "C09"), ("lruconc", eng_lruconc, "C11"), ("cprop", eng_cprop, "C12"), ("decorator", eng_decor, "C15"),
                           ("exitstack", eng_exitstack, "C14"), ("groupby", eng_groupby, "C16"), ("handles", eng_handles, "C08")):
         sv = SubVerdict(v, only_foreign, name)
-        eng.check(p_, "quick", seed, into=sv)
+        eng.check(p_, "mini" if name in ("tee", "lruconc", "cprop") else "quick", seed, into=sv)
         sub[name] = {k: sv.coverage_out.get(k) for k in ("states", "transitions", "traces_validated_against_impl") if sv.coverage_out}
     for c in chosen[:3]:
         v.sample({"cfg": c["cfg"], "nnext": c["nnext"], "susp": 2})
@@ -567,7 +567,7 @@ def check_c18(prop, tier, seed):
     sub = {}
     for name, eng, p_ in (("tee", eng_tee, "C09"), ("lruconc", eng_lruconc, "C11"), ("cprop", eng_cprop, "C12")):
         sv = SubVerdict(v, cancel_only, name)
-        eng.check(p_, "quick", seed, into=sv)
+        eng.check(p_, "mini" if name in ("tee", "lruconc", "cprop") else "quick", seed, into=sv)
         sub[name] = {k: sv.coverage_out.get(k) for k in ("states", "transitions", "traces_validated_against_impl") if sv.coverage_out}
     for c in chosen[:3]:
         v.sample({"cfg": c["cfg"], "nnext": c["nnext"], "cancel": "at every suspension 1..N"})
@@ -707,7 +707,7 @@ def check_c20(prop, tier, seed):
         return ("C20/" + sig.split("/", 1)[1]) if "census" in sig else None
 
     sv = SubVerdict(v, census_only, "tee")
-    eng_tee.check("C09", "quick", seed, into=sv)
+    eng_tee.check("C09", "mini", seed, into=sv)
     for t in traces[:3]:
         v.sample({"cfg": t["cfg"], "censuses": t["ev"][:4] + t["ev"][-2:]})
     v.assumptions += ["CPython reference counting + gc.collect(): an item is retained iff a weak reference to it is alive after collection",
